@@ -21,13 +21,14 @@ INVS = ["RangeOK", "ShiftInvariant", "OneHotIsOne", "ThresholdMonotone"]
 CLIP = 2 * 10 ** 9
 CLAUSES = {1: "an exception was raised", 2: "a reported confidence lies outside [0, 1] by more than 1e-9",
            3: "hypothesis posteriors do not sum to 1", 4: "a confidence changed when a constant was added to all logits of the frames "
-           "(alignment held fixed)", 5: "line_confident_enough answers differently for the shifted logits",
+           "/ all scores of the bag (alignment held fixed)", 5: "line_confident_enough answers differently for the shifted logits",
            6: "line_confident_enough is not monotone in its threshold", 7: "one-hot posteriors do not give confidence 1",
+           8: "the bag confidence is not the largest normalised posterior", 16: "ALTO line / word confidence differs from the exact median",
            11: "get_line_confidence differs from the exact value of the model", 12: "get_letter_confidence differs from the exact value",
            13: "compute_line_confidence differs from the exact value", 14: "line_confident_enough differs from the exact comparison",
            15: "bag posterior / confidence / transcript_confidence differs from the exact value"}
 SIGS = {1: "exception", 2: "range", 3: "posterior-sum", 4: "shift-invariance", 5: "threshold-test-shift", 6: "threshold-monotone",
-        7: "one-hot"}
+        7: "one-hot", 8: "bag-confidence"}
 ALPHABET = ["a", "b", "c", "d"]
 
 
@@ -165,24 +166,32 @@ def _bag_case(item):
     rng = random.Random(seed)
     n = len(v)
     rec = {"kind": "bag", "v": list(v), "lm": list(lm), "scale": "0" if scale == "none" else scale, "has_lm": scale != "none", "seed": seed,
-           "outcome": "ok", "post": [], "conf": 0, "tconf": [], "tabsent": 0, "sumdev": 0, "over": 0}
+           "outcome": "ok", "post": [], "conf": 0, "tconf": [], "tabsent": 0, "sumdev": 0, "over": 0, "dshift": 0, "confdev": 0}
     try:
         weight = {"none": 1.0, "0": 0.0, "half": 0.5, "1": 1.0, "2": 2.0}[scale]
         const = rng.uniform(-30, 5)                 # visual scores are un-normalised log-probabilities
-        bag = BagOfHypotheses(lm_weight=weight)
-        for i in range(n):
-            bag.add("h%d" % i, math.log(v[i]) + const, None if scale == "none" else math.log(lm[i] / 10.0))
-        post = [math.exp(p) for p in bag.posteriors()]
-        conf = float(bag.confidence())
-        tconf = [float(bag.transcript_confidence("h%d" % i)) for i in range(n)]
-        tabs = float(bag.transcript_confidence("not in the bag"))
+        obs = []
+        for cst in (const, const + rng.choice([-1, 1]) * rng.uniform(0.5, 10)):     # the same bag with every score shifted
+            bag = BagOfHypotheses(lm_weight=weight)
+            for i in range(n):
+                bag.add("h%d" % i, math.log(v[i]) + cst, None if scale == "none" else math.log(lm[i] / 10.0))
+            post = [math.exp(p) for p in bag.posteriors()]
+            conf = float(bag.confidence())
+            tconf = [float(bag.transcript_confidence("h%d" % i)) for i in range(n)]
+            tabs = float(bag.transcript_confidence("not in the bag"))
+            obs.append((post, conf, tconf, tabs))
+        post, conf, tconf, tabs = obs[0]
         rec["post"] = [_m6(p) for p in post]
         rec["conf"] = _m6(conf)
         rec["tconf"] = [_m6(p) for p in tconf]
         rec["tabsent"] = _m6(tabs)
-        rec["sumdev"] = _u12(abs(sum(post) - 1.0))
-        allv = post + [conf] + tconf + [tabs]
+        rec["sumdev"] = max(_u12(abs(sum(o[0]) - 1.0)) for o in obs)
+        allv = [x for o in obs for x in o[0] + [o[1]] + o[2] + [o[3]]]
         rec["over"] = _u12(max(max(x - 1.0 for x in allv), max(-x for x in allv)))
+        a = obs[0][0] + [obs[0][1]] + obs[0][2]
+        b = obs[1][0] + [obs[1][1]] + obs[1][2]
+        rec["dshift"] = _u12(max(abs(x - y) for x, y in zip(a, b)))
+        rec["confdev"] = max(_u12(abs(o[1] - max(o[0]))) for o in obs)       # confidence() vs the largest posterior
     except Exception as ex:
         rec["outcome"] = "exception:" + type(ex).__name__
     return rec
@@ -316,7 +325,6 @@ def run(ctx):
                "a stored logit of exactly 0.0 means 'absent' in the sparse encoding; shifts producing an exact 0.0 are not generated",
                "word / line confidences of the ALTO export (WC attribute, transcription_confidence) are observed on texts made of letters and single "
                "U+0020 spaces only; only their range and the one-hot case are property-level, the exact median is drift-level")
-    from pero_ocr.core.force_alignment import force_align      # noqa: F401  (numba kernel not used here: alignments are supplied)
     ctx.exhaustive = True
     first = True
     for c in configs(ctx.tier):
